@@ -60,6 +60,8 @@ const (
 	sigSeekBuckets      = "cursor-seek-loses-nested-buckets-held-in-treap-layer"
 	sigTreapSeekStart   = "treap-iterator-seek-below-start-key"
 	sigTreapStaleSeek   = "treap-iterator-reposition-keeps-stale-reseek-key"
+	sigTreapOneBound    = "treap-iterator-first-last-ignore-single-bound"
+	sigSnapshotFlush    = "snapshot-begun-during-cache-flush-sees-stale-state"
 )
 
 func known(sig string) bool { return ev.IsKnown("C05", sig) }
@@ -321,6 +323,7 @@ type txPair struct {
 	id      int
 	managed bool
 	prunes  int // PruneBlocks calls that reported deletions in this tx
+	pruned  map[kvmodel.Hash]bool // blocks whose files this transaction's commit deletes
 }
 
 type curPair struct {
@@ -386,6 +389,9 @@ func (e *env) history() string {
 func (e *env) failf(sig string, format string, args ...any) {
 	msg := fmt.Sprintf(format, args...)
 	if sig != "" {
+		if os.Getenv("C05_DEBUG") != "" && known(sig) {
+			fmt.Println("DEBUG known-finding abort:", msg, e.history())
+		}
 		knownOrFatal(e.t, e.rec, sig, msg)
 	}
 	e.t.Fatalf("%s%s", msg, e.history())
@@ -735,6 +741,12 @@ func (e *env) apply(p *txPair, op Op) {
 			} else {
 				e.rec.Count("prune-not-oldest-prefix", 1)
 			}
+		}
+		for _, h := range hs {
+			if p.pruned == nil {
+				p.pruned = map[kvmodel.Hash]bool{}
+			}
+			p.pruned[h] = true
 		}
 		e.logf("   -> pruned %d blocks", len(hs))
 		p.m.PruneApply(hs)
@@ -1230,6 +1242,9 @@ func (e *env) checkSnapshot(p *txPair, what string) {
 func copyDir(src, dst string) error {
 	return filepath.Walk(src, func(path string, info os.FileInfo, err error) error {
 		if err != nil {
+			if os.IsNotExist(err) {
+				return os.ErrNotExist // a file vanished during the walk (leveldb background compaction)
+			}
 			return err
 		}
 		rel, _ := filepath.Rel(src, path)
@@ -1242,6 +1257,9 @@ func copyDir(src, dst string) error {
 		}
 		in, err := os.Open(path)
 		if err != nil {
+			if os.IsNotExist(err) {
+				return os.ErrNotExist
+			}
 			return err
 		}
 		defer in.Close()
